@@ -16,7 +16,7 @@ mod oracle;
 pub const OP_NAMES: &[&str] = &[
     "NewClient", "TickClient", "TickServer", "Deliver", "Drop", "DropAll", "DeliverAll", "GenPayload", "ClientDisconnect", "ServerDisconnect",
     "SetMaxClients", "Junk", "Mutate", "Replay", "ForgeRequest", "ForgeResponse", "ForgeSession", "TamperEnum", "RestartServer", "Teleport",
-    "TokenSurgery", "CrashClient", "GenBurst", "CrossResponse", "StaleHandshake", "FloodThenSteal", "ForgeExpiry", "Reframe",
+    "TokenSurgery", "CrashClient", "GenBurst", "CrossResponse", "StaleHandshake", "FloodThenSteal", "ForgeExpiry", "Reframe", "StaleResponse",
 ];
 pub const K_NEWCLIENT: u8 = 0;
 pub const K_TICKCLIENT: u8 = 1;
@@ -46,6 +46,7 @@ pub const K_STALEHS: u8 = 24;
 pub const K_FLOODSTEAL: u8 = 25;
 pub const K_FORGEEXPIRY: u8 = 26;
 pub const K_REFRAME: u8 = 27;
+pub const K_STALERESP: u8 = 28;
 
 pub const T_REQUEST: u8 = 0;
 pub const T_DENIED: u8 = 1;
@@ -188,6 +189,9 @@ pub struct WorldB {
     pub sessions: BTreeMap<u64, Sess>, // by client id (model)
     pub sess_counter: u32,
     pub nonce_table: HashMap<(usize, u8, u32, u64), u64>, // (tid, dir, scope, seq) -> hash of datagram
+    /// first eight keystream bytes (ciphertext xor known plaintext) of session datagrams -> packet number: two packet numbers
+    /// under one key must never share a keystream, whatever the header says
+    pub ks_table: HashMap<(usize, u8, u32, [u8; 8]), u64>,
     pub adv_addr: SocketAddr,
     pub flooded: bool,
     /// the next token lists only one of the server's public addresses (a backend that hands out the address it prefers)
@@ -306,6 +310,7 @@ impl WorldB {
             sessions: BTreeMap::new(),
             sess_counter: 0,
             nonce_table: HashMap::new(),
+            ks_table: HashMap::new(),
             adv_addr: addr_v4(66, 66, 66, 66, 6666),
             flooded: false,
             next_token_subset: false,
@@ -537,7 +542,7 @@ impl World for WorldB {
     }
     fn panic_props(&self, op: Option<&Op>) -> Vec<String> {
         let mut v = vec!["C07".to_string()];
-        let hostile_op = op.map(|o| matches!(o.k, K_JUNK | K_MUTATE | K_REPLAY | K_FORGEREQ | K_FORGERESP | K_FORGESESS | K_TAMPER | K_TOKENSURGERY | K_FORGEEXPIRY | K_REFRAME)).unwrap_or(false);
+        let hostile_op = op.map(|o| matches!(o.k, K_JUNK | K_MUTATE | K_REPLAY | K_FORGEREQ | K_FORGERESP | K_FORGESESS | K_TAMPER | K_TOKENSURGERY | K_FORGEEXPIRY | K_REFRAME | K_STALERESP)).unwrap_or(false);
         if !hostile_op {
             for p in ["C04", "C05", "C10", "C17", "C18", "C19"] {
                 v.push(p.to_string());
